@@ -1,5 +1,6 @@
 (* Props/C04.v — Interface coefficients obey Snell, energy conservation and Stokes
-   relations.  Statements only; proofs are in Proofs/InterfaceProofs.v.
+   relations.  Statements only; proofs are in Proofs/InterfaceProofs.v,
+   Proofs/InterfaceComplex.v and Proofs/InterfaceFastFluid.v.
 
    Model: Model/Interface.v.  `*_sc` = the formulas of fluid_solid / solid_l_fluid /
    solid_t_fluid on (sin, cos) of the three angles; `*_auto` = the functions as
@@ -9,7 +10,8 @@
    solid_t_fluid -> (R_L, R_T, T); fst3/snd3/thd3 select.
    Impedances: z_f = rho_f v_f, z_l = rho_s v_l, z_t = rho_s v_t. *)
 From Coq Require Import Reals ZArith Lra.
-From Arim Require Import Base.Num Base.NumR Model.Interface Proofs.InterfaceProofs Proofs.InterfaceComplex.
+From Arim Require Import Base.Num Base.NumR Model.Interface Proofs.InterfaceProofs Proofs.InterfaceComplex
+  Proofs.InterfaceFastFluid.
 Local Open Scope R_scope.
 
 (* ---- Snell ----------------------------------------------------------------- *)
@@ -310,8 +312,125 @@ Proof. exact solid_t_total_auto. Qed.
 (* With the sub-critical theorems this covers every regime of the three functions
    for a fluid slower than the L wave (v_f < v_l; v_t < v_l always): fluid incidence
    {sub, between, beyond}, L incidence {sub}, T incidence {sub, beyond L, beyond L and
-   fluid}.  Not proved (covered by the correspondence and the residual predicate of
-   harness/prop_C04.py only): the regimes that need v_f > v_l. *)
+   fluid}.  None of the theorems above assumes an ordering of the velocities: they
+   assume which refracted waves are real and which evanescent. *)
+
+(* ---- a fluid FASTER than the L wave (v_l < v_f, e.g. water against a soft rubber) --
+   Two more regimes appear, both with an evanescent transmitted wave in the fluid
+   (cos a_f = (0, bf), flux weight Re(cos a_f) = 0) and real reflected L and T waves;
+   and fluid incidence has no critical angle at all. *)
+
+(* T incidence, fluid wave evanescent, L and T real: all the energy is reflected into
+   the L and the T wave, |R_TL|^2 (z_t cos a_l)/(z_l cos a_t) + |R_TT|^2 = 1.
+   Only Snell between the L and the T sine is needed. *)
+Theorem energy_solid_t_evanescent_fluid : forall sf bf sl cl st ct rho_f rho_s v_f v_l v_t,
+  0 < rho_f -> 0 < rho_s -> 0 < v_f -> 0 < v_l -> 0 < v_t ->
+  bf <> 0 -> 0 < cl -> 0 < ct ->
+  sl * v_t = st * v_l ->
+  let r := solid_t_fluid_sc C (sf, 0) (0, bf) (sl, 0) (cl, 0) (st, 0) (ct, 0)
+                         (rho_f, 0) (rho_s, 0) (v_f, 0) (v_l, 0) (v_t, 0) in
+  cnorm2 NumR (fst3 r) * ((rho_s * v_t * cl) / (rho_s * v_l * ct)) + cnorm2 NumR (snd3 r) = 1.
+Proof. exact solid_t_evanescent_fluid_sc. Qed.
+
+(* as called (force_complex=True, Snell angles on the fly): T incidence angle beyond
+   the fluid critical angle asin(v_t/v_f) and below the L critical angle asin(v_t/v_l) *)
+Theorem energy_solid_t_evanescent_fluid_angles : forall alpha rho_f rho_s v_f v_l v_t,
+  0 < rho_f -> 0 < rho_s -> 0 < v_f -> 0 < v_l -> 0 < v_t ->
+  0 <= alpha < PI / 2 -> v_l / v_t * sin alpha < 1 -> 1 < v_f / v_t * sin alpha ->
+  let a_l := snell_angles NumR alpha v_t v_l in
+  let r := solid_t_fluid_auto C (alpha, 0) (cre NumR rho_f) (cre NumR rho_s)
+                       (cre NumR v_f) (cre NumR v_l) (cre NumR v_t) in
+  cnorm2 NumR (fst3 r) * ((rho_s * v_t * cos a_l) / (rho_s * v_l * cos alpha)) + cnorm2 NumR (snd3 r) = 1.
+Proof. exact solid_t_evanescent_fluid_auto. Qed.
+
+(* L incidence, fluid wave evanescent, L and T real:
+   |R_LL|^2 + |R_LT|^2 (z_l cos a_t)/(z_t cos a_l) = 1 *)
+Theorem energy_solid_l_evanescent_fluid : forall sf bf sl cl st ct rho_f rho_s v_f v_l v_t,
+  0 < rho_f -> 0 < rho_s -> 0 < v_f -> 0 < v_l -> 0 < v_t ->
+  bf <> 0 -> 0 < cl -> 0 < ct ->
+  sl * v_t = st * v_l ->
+  let r := solid_l_fluid_sc C (sf, 0) (0, bf) (sl, 0) (cl, 0) (st, 0) (ct, 0)
+                         (rho_f, 0) (rho_s, 0) (v_f, 0) (v_l, 0) (v_t, 0) in
+  cnorm2 NumR (fst3 r) + cnorm2 NumR (snd3 r) * ((rho_s * v_l * ct) / (rho_s * v_t * cl)) = 1.
+Proof. exact solid_l_evanescent_fluid_sc. Qed.
+
+(* as called: L incidence angle beyond the fluid critical angle asin(v_l/v_f)
+   (the T wave is real: v_t/v_l sin alpha < 1 holds for every angle when v_t <= v_l) *)
+Theorem energy_solid_l_evanescent_fluid_angles : forall alpha rho_f rho_s v_f v_l v_t,
+  0 < rho_f -> 0 < rho_s -> 0 < v_f -> 0 < v_l -> 0 < v_t ->
+  0 <= alpha < PI / 2 -> v_t / v_l * sin alpha < 1 -> 1 < v_f / v_l * sin alpha ->
+  let a_t := snell_angles NumR alpha v_l v_t in
+  let r := solid_l_fluid_auto C (alpha, 0) (cre NumR rho_f) (cre NumR rho_s)
+                       (cre NumR v_f) (cre NumR v_l) (cre NumR v_t) in
+  cnorm2 NumR (fst3 r) + cnorm2 NumR (snd3 r) * ((rho_s * v_l * cos a_t) / (rho_s * v_t * cos alpha)) = 1.
+Proof. exact solid_l_evanescent_fluid_auto. Qed.
+
+(* these two incidence ranges are non-empty only for a fluid faster than the L wave *)
+Theorem evanescent_fluid_with_real_l_needs_fast_fluid : forall alpha v_f v_l v_t,
+  0 < v_f -> 0 < v_l -> 0 < v_t -> 0 <= alpha < PI / 2 ->
+  (v_l / v_t * sin alpha < 1 -> 1 < v_f / v_t * sin alpha -> v_l < v_f) /\
+  (1 < v_f / v_l * sin alpha -> v_l < v_f).
+Proof.
+  intros alpha v_f v_l v_t H1 H2 H3 H4.
+  exact (conj (evanescent_fluid_needs_fast_fluid_t alpha v_f v_l v_t H1 H2 H3 H4)
+              (evanescent_fluid_needs_fast_fluid_l alpha v_f v_l H1 H2 H4)).
+Qed.
+
+(* fluid incidence, fluid at least as fast as both solid waves: no critical angle, the
+   three-wave balance holds for EVERY incidence angle of [0, pi/2) (corollary of
+   energy_fluid_solid_angles: its two sub-critical hypotheses follow from the ordering);
+   real dtype, then complex dtype (force_complex=True) *)
+Theorem energy_fluid_solid_fast_fluid_angles : forall alpha rho_f rho_s v_f v_l v_t,
+  0 < rho_f -> 0 < rho_s -> 0 < v_f -> 0 < v_l -> 0 < v_t ->
+  v_l <= v_f -> v_t <= v_f -> 0 <= alpha < PI / 2 ->
+  let a_l := snell_angles NumR alpha v_f v_l in
+  let a_t := snell_angles NumR alpha v_f v_t in
+  let r := fluid_solid_auto NumR alpha rho_f rho_s v_f v_l v_t in
+  fst3 r * fst3 r
+  + snd3 r * snd3 r * ((rho_f * v_f * cos a_l) / (rho_s * v_l * cos alpha))
+  + thd3 r * thd3 r * ((rho_f * v_f * cos a_t) / (rho_s * v_t * cos alpha)) = 1.
+Proof. exact energy_fluid_solid_fast_auto. Qed.
+
+Theorem energy_fluid_solid_fast_fluid_angles_complex : forall alpha rho_f rho_s v_f v_l v_t,
+  0 < rho_f -> 0 < rho_s -> 0 < v_f -> 0 < v_l -> 0 < v_t ->
+  v_l <= v_f -> v_t <= v_f -> 0 <= alpha < PI / 2 ->
+  let a_l := snell_angles NumR alpha v_f v_l in
+  let a_t := snell_angles NumR alpha v_f v_t in
+  let r := fluid_solid_auto C (alpha, 0) (cre NumR rho_f) (cre NumR rho_s)
+                       (cre NumR v_f) (cre NumR v_l) (cre NumR v_t) in
+  cnorm2 NumR (fst3 r)
+  + cnorm2 NumR (snd3 r) * ((rho_f * v_f * cos a_l) / (rho_s * v_l * cos alpha))
+  + cnorm2 NumR (thd3 r) * ((rho_f * v_f * cos a_t) / (rho_s * v_t * cos alpha)) = 1.
+Proof. exact energy_fluid_solid_fast_auto_C. Qed.
+
+(* complex dtype with every Snell sine in [-1, 1] (all three angles real): the complex
+   coefficients are the real ones with imaginary part 0, cre3 (a, b, c) =
+   ((a, 0), (b, 0), (c, 0)).  This carries energy_fluid_solid_angles,
+   energy_solid_l_angles and energy_solid_t_angles to the force_complex=True calls. *)
+Theorem real_regime_complex_dtype : forall alpha rho_f rho_s v_f v_l v_t,
+  (v_f <> 0 -> -1 <= v_l / v_f * sin alpha <= 1 -> -1 <= v_t / v_f * sin alpha <= 1 ->
+   fluid_solid_auto C (alpha, 0) (cre NumR rho_f) (cre NumR rho_s) (cre NumR v_f) (cre NumR v_l) (cre NumR v_t)
+   = cre3 (fluid_solid_auto NumR alpha rho_f rho_s v_f v_l v_t)) /\
+  (v_l <> 0 -> -1 <= v_f / v_l * sin alpha <= 1 -> -1 <= v_t / v_l * sin alpha <= 1 ->
+   solid_l_fluid_auto C (alpha, 0) (cre NumR rho_f) (cre NumR rho_s) (cre NumR v_f) (cre NumR v_l) (cre NumR v_t)
+   = cre3 (solid_l_fluid_auto NumR alpha rho_f rho_s v_f v_l v_t)) /\
+  (v_t <> 0 -> -1 <= v_f / v_t * sin alpha <= 1 -> -1 <= v_l / v_t * sin alpha <= 1 ->
+   solid_t_fluid_auto C (alpha, 0) (cre NumR rho_f) (cre NumR rho_s) (cre NumR v_f) (cre NumR v_l) (cre NumR v_t)
+   = cre3 (solid_t_fluid_auto NumR alpha rho_f rho_s v_f v_l v_t)).
+Proof.
+  intros alpha rho_f rho_s v_f v_l v_t.
+  exact (conj (fluid_solid_auto_C_real alpha rho_f rho_s v_f v_l v_t)
+        (conj (solid_l_fluid_auto_C_real alpha rho_f rho_s v_f v_l v_t)
+              (solid_t_fluid_auto_C_real alpha rho_f rho_s v_f v_l v_t))).
+Qed.
+(* Regime table, now complete for every ordering of v_f against v_t < v_l (each Snell
+   sine s_w = v_w / v_inc * sin alpha either < 1, wave w real, or > 1, evanescent;
+   exactly s_w = 1 -- a cosine equal to 0, division by zero in the code -- is excluded):
+     fluid incidence  all real | L evanescent | L, T evanescent
+     L incidence      all real | fluid evanescent                       (T is never)
+     T incidence      all real | L evan. | L, fluid evan. | fluid evan., L real
+   (T evanescent with L real is impossible; for v_l <= v_f fluid incidence is always
+   "all real"). *)
 
 (* ---- the functions called with angles ARE the (sin, cos) formulas ---------------
    real angles: sin, cos; complex angles: the complex sin, cos of the model
@@ -414,3 +533,38 @@ Example post_critical_hypotheses_satisfiable :
   (0 <= PI / 6 < PI / 2 /\ 1 < 6320 / 1480 * sin (PI / 6) /\ 1 < 3130 / 1480 * sin (PI / 6)) /\
   (1 < 4 / 1 * sin (PI / 6) /\ (3 / 2) / 1 * sin (PI / 6) < 1).
 Proof. rewrite sin_PI6. pose proof PI_RGT_0. repeat split; lra. Qed.
+
+(* a soft rubber in water (rho_f = 1000, v_f = 1480, rho_s = 1100, v_l = 700, v_t = 400:
+   v_t < v_l < v_f) at 30 degrees satisfies the hypotheses of
+   energy_solid_t_evanescent_fluid_angles (T incidence: L real, fluid evanescent), of
+   energy_solid_l_evanescent_fluid_angles (L incidence: fluid evanescent) and of
+   energy_fluid_solid_fast_fluid_angles *)
+Example fast_fluid_hypotheses_satisfiable :
+  0 <= PI / 6 < PI / 2 /\
+  (700 / 400 * sin (PI / 6) < 1 /\ 1 < 1480 / 400 * sin (PI / 6)) /\
+  (400 / 700 * sin (PI / 6) < 1 /\ 1 < 1480 / 700 * sin (PI / 6)) /\
+  (700 <= 1480 /\ 400 <= 1480).
+Proof. rewrite sin_PI6. pose proof PI_RGT_0. repeat split; lra. Qed.
+
+(* ... and the conclusion of energy_solid_l_evanescent_fluid_angles on it *)
+Example rubber_in_water_l_incidence :
+  let a_t := snell_angles NumR (PI / 6) 700 400 in
+  let r := solid_l_fluid_auto C (PI / 6, 0) (cre NumR 1000) (cre NumR 1100)
+                       (cre NumR 1480) (cre NumR 700) (cre NumR 400) in
+  cnorm2 NumR (fst3 r) + cnorm2 NumR (snd3 r) * ((1100 * 700 * cos a_t) / (1100 * 400 * cos (PI / 6))) = 1.
+Proof.
+  apply energy_solid_l_evanescent_fluid_angles; try lra; rewrite ?sin_PI6; pose proof PI_RGT_0; try lra.
+Qed.
+
+(* a (sin, cos) configuration satisfying every hypothesis of
+   energy_solid_t_evanescent_fluid / energy_solid_l_evanescent_fluid:
+   v_l = 2, v_t = 1, sin a_l = 3/5, cos a_l = 4/5, sin a_t = 3/10, cos a_f = (0, -1) *)
+Example evanescent_fluid_sc_hypotheses_satisfiable :
+  exists bf sl cl st ct : R,
+    bf <> 0 /\ 0 < cl /\ 0 < ct /\ sl * 1 = st * 2 /\ sl * sl + cl * cl = 1 /\ st * st + ct * ct = 1.
+Proof.
+  exists (-1), (3 / 5), (4 / 5), (3 / 10), (sqrt (91 / 100)).
+  assert (Q : sqrt (91 / 100) * sqrt (91 / 100) = 91 / 100) by (apply sqrt_sqrt; lra).
+  assert (P : 0 < sqrt (91 / 100)) by (apply sqrt_lt_R0; lra).
+  repeat split; lra.
+Qed.
